@@ -117,4 +117,58 @@ Proof.
                  Htodo Hnames Hlatch Hsexit Htop xt g1 rest Hblocks Hg' x Hx Hnin). exact Hb.
     + split; [exact Hk|]. split; [reflexivity|]. split; [reflexivity|]. intros k t t' Ht Ht'. left. congruence.
 Qed.
+
+(* property C03 for one loop: after the rotation no processed or untouched block of the loop jumps
+   directly to an exit, or back to a header along an arc classified as a back edge - every such arc
+   now ends in an assignment block (which continues to the latch) *)
+Theorem rotate_no_direct_arcs (loop : list name) :
+  (forall x, In x exits -> In x (ekeys g)) -> (forall x, In x headers -> In x (ekeys g)) ->
+  (forall x b t, In x loop -> efind g x = Some b -> In t (e_jt b) ->
+     (In t exits \/ (In t headers /\ isback x t = true)) -> In x todo) ->
+  (forall p b, In p todo -> efind g p = Some b -> nonbranch b) ->
+  forall x b', In x loop -> In x (ekeys g) -> efind g' x = Some b' ->
+    forall t', In t' (e_jt b') -> ~ In t' exits /\ ~ (In t' headers /\ isback x t' = true).
+Proof.
+  intros Hexk Hhdk Hcover Hnbs x b' Hxl Hxk Hb' t' Ht'.
+  destruct (LoopPath.rot_parts g top hd headers exits todo unified header_tbl isback latch sexit ev bv names g' Hrot)
+    as [xt [g1 [rest [Hxt [Hblocks Hg']]]]].
+  assert (Hfreshk : forall a, In a names -> ~ In a (ekeys g)).
+  { intros a Ha Hi. destruct (proj2 Hnames a Ha) as [A _]. destruct (keys_efind g a Hi) as [b0 Hb0]. congruence. }
+  destruct (in_dec Z.eq_dec x todo) as [Hin|Hnin].
+  - destruct (LoopPath.processed g top hd headers exits todo unified header_tbl isback latch sexit ev bv names g'
+               Htodo Hnames Hlatch Hsexit Htop xt g1 rest Hblocks Hg' x Hin)
+      as [b [usedp [b2 [Hb [Hbe [Hnd [Hlen [Hun [Hndu [Hb2 [Hrj _]]]]]]]]]]].
+    rewrite Hb' in Hb2. injection Hb2 as <-.
+    rewrite (replace_jt_nonbranch b _ (Hnbs x b Hin Hb)) in Hrj. injection Hrj as <-. cbn [e_jt] in Ht'.
+    destruct (proj2 Htodo x Hin) as [b1 [Hb1 [_ [_ [Hfr _]]]]]. rewrite Hb in Hb1. injection Hb1 as <-.
+    apply In_nth_error in Ht' as [k Hk].
+    match type of Hk with nth_error (subst_all (combine (filter (rerouted ?cc x) _) _) _) _ = _ => set (c0 := cc) in * end.
+    destruct (nth_error (e_jt b) k) as [t|] eqn:Ht.
+    2:{ exfalso. apply nth_error_None in Ht. rewrite <- (subst_all_length (combine (filter (rerouted c0 x) (e_jt b)) usedp)) in Ht.
+        assert (k < length (subst_all (combine (filter (rerouted c0 x) (e_jt b)) usedp) (e_jt b)))%nat
+          by (apply nth_error_Some; intros Hc; pose proof (eq_trans (eq_sym Hc) Hk) as X; discriminate X). lia. }
+    assert (Hpp : nth_error (subst_all (combine (filter (rerouted c0 x) (e_jt b)) usedp) (e_jt b)) k =
+                  Some (match passoc t (combine (filter (rerouted c0 x) (e_jt b)) usedp) with Some a => a | None => t end)).
+    { apply subst_all_pos; try assumption.
+      - rewrite LoopPath.map_snd_combine by (symmetry; exact Hlen). exact Hndu.
+      - rewrite LoopPath.map_fst_combine by (symmetry; exact Hlen). apply LoopPath.nodup_filter. exact Hnd.
+      - intros a Ha. rewrite LoopPath.map_snd_combine in Ha by (symmetry; exact Hlen).
+        split; [apply Hfr; apply Hun; exact Ha|].
+        rewrite LoopPath.map_fst_combine by (symmetry; exact Hlen). intros Hi. apply filter_In in Hi as [Hi _].
+        apply (Hfr a (Hun a Ha)). exact Hi. }
+    pose proof (eq_trans (eq_sym Hpp) Hk) as Heq. injection Heq as Heq.
+    destruct (passoc t (combine (filter (rerouted c0 x) (e_jt b)) usedp)) as [a|] eqn:Hpa.
+    + subst t'. apply passoc_combine_in in Hpa. assert (Han : In a names) by (apply Hun; apply in_combine_r in Hpa; exact Hpa).
+      split; [intros Hi; exact (Hfreshk a Han (Hexk a Hi))|intros [Hi _]; exact (Hfreshk a Han (Hhdk a Hi))].
+    + subst t'. apply passoc_none_combine in Hpa; [|symmetry; exact Hlen].
+      assert (Hrr : rerouted c0 x t = false).
+      { destruct (rerouted c0 x t) eqn:E0; [|reflexivity]. exfalso. apply Hpa. apply filter_In. split; [eapply nth_error_In; eauto|exact E0]. }
+      unfold rerouted, c0 in Hrr. cbn [l_exits l_headers l_isback] in Hrr. apply orb_false_iff in Hrr as [R1 R2].
+      split; [apply zmem_false; exact R1|]. intros [Hi Hbk]. apply zmem_In in Hi. rewrite Hi, Hbk in R2. discriminate.
+  - rewrite (LoopPath.untouched g top hd headers exits todo unified header_tbl isback latch sexit ev bv names g'
+               Htodo Hnames Hlatch Hsexit Htop xt g1 rest Hblocks Hg' x Hxk Hnin) in Hb'.
+    split.
+    + intros Hi. apply Hnin. eapply Hcover; eauto.
+    + intros [Hi Hbk]. apply Hnin. eapply Hcover; eauto.
+Qed.
 End Rotate.
